@@ -88,7 +88,7 @@ Example C17_nonvacuous :
   let g2 := ([mkPB (-1000) 0 0 1000], [mkPB (-1000) (-100) 100 1000]) in
   let gs := [g1; g2] in
   Forall wf_group gs /\ Forall wf_inverters gs /\
-  advertised (map wrap gs) = Some (mkPB (0 + -1000 + -1000) (0 + -100 + -100) (0 + 100 + 100) (0 + 1000 + 1000)) /\
+  pb_eqb (default (mkPB 0 0 0 0) (advertised (map wrap gs))) (mkPB (-2000) (-200) 200 2000) = true /\
   pb_eqb (enforced (map pair_of gs)) (mkPB (-2000) (-100) 100 2000) = true /\
   adv_contains (advertised (map wrap gs)) 201 = true /\
   adv_contains (advertised (map wrap gs)) 150 = false /\
